@@ -228,7 +228,7 @@ CaseRec ==
   [g |-> g, expect |-> ImExpect(g), machine |-> outcome,
    shapes |-> SetToSeq(ImShapes(g)),
    mods |-> [f \in 1..ImN(g) |-> ImModule(g, f)],
-   flat |-> IF ImExpect(g) = "ok" THEN ImFlatten(g) ELSE [preds |-> <<>>, rec |-> <<>>],
+   flat |-> IF ImExpect(g) = "ok" THEN ImFlatten(g) ELSE [preds |-> <<>>, rec |-> <<>>, makes |-> <<>>],
    query |-> ImQuery,
    prefixes |-> [f \in 1..ImN(g) |-> parsed[f].prefix]]
 
